@@ -199,18 +199,32 @@ def make_shims() -> Shims:
     return s
 
 
-def run_app(iface: str, app_kind: str, path, dirmode: str = "abs", mount: str = ""):
+def _not_found_app(iface):
+    """a caller-supplied handle_404 application: answers 404 itself"""
+    if iface == "wsgi":
+        def not_found(environ, start_response):
+            start_response("404 Not Found", [])
+            return [b"custom 404"]
+    else:
+        async def not_found(scope, receive, send):
+            await send({"type": "http.response.start", "status": 404, "headers": []})
+            await send({"type": "http.response.body", "body": b"custom 404"})
+    return not_found
+
+
+def run_app(iface: str, app_kind: str, path, dirmode: str = "abs", mount: str = "", handle_404: bool = False):
     RecFile.opened = []
     RecRedirect.targets = []
     mod = WS if iface == "wsgi" else AS
+    kw = {"handle_404": _not_found_app(iface)} if handle_404 else {}
     if dirmode == "rel":
         # directory given relative to the working directory AT CONSTRUCTION; the process then changes directory (daemonising
         # server, --chdir) before the first request: the configured directory must not move with it
         sympath.CWD = "/srv"
-        app = (mod.Files if app_kind == "files" else mod.Pages)("www")
+        app = (mod.Files if app_kind == "files" else mod.Pages)("www", **kw)
         sympath.CWD = "/srv/wwwx"
     else:
-        app = (mod.Files if app_kind == "files" else mod.Pages)(DIR)
+        app = (mod.Files if app_kind == "files" else mod.Pages)(DIR, **kw)
     status = None
     try:
         if iface == "wsgi":
@@ -306,7 +320,7 @@ def job_path(job) -> report.JobResult:
     def fn():
         try:
             try:
-                got = run_app(iface, app_kind, path, job.get("dirmode", "abs"), job.get("mount", ""))
+                got = run_app(iface, app_kind, path, job.get("dirmode", "abs"), job.get("mount", ""), bool(job.get("handle_404")))
             finally:
                 sympath.CWD = "/srv"
             err = None
@@ -365,7 +379,7 @@ def job_path(job) -> report.JobResult:
         if klass != "redirect-target-is-a-network-path":  # that verdict comes with its own model (the last check)
             e.last_sat = False
         m = e.witness()
-        wit = {"iface": iface, "app": app_kind, "path": conc(path, m), "dirmode": job.get("dirmode", "abs"), "mount": job.get("mount", "")}
+        wit = {"iface": iface, "app": app_kind, "path": conc(path, m), "dirmode": job.get("dirmode", "abs"), "mount": job.get("mount", ""), "handle_404": bool(job.get("handle_404"))}
         with shims.off():
             cp = concrete_path(wit)
         if klass is not None:
@@ -501,7 +515,7 @@ def concrete_path(w) -> Optional[str]:
                 _os.chdir(cwd0)
                 raise
         else:
-            app = (mod.Files if app_kind == "files" else mod.Pages)(root)
+            app = (mod.Files if app_kind == "files" else mod.Pages)(root, **({"handle_404": _not_found_app(iface)} if w.get("handle_404") else {}))
         exp = py_expected(app_kind, path, base)
         status = None
         body = b""
@@ -591,6 +605,9 @@ def jobs(tier: str):
                 for n in (1, 2):
                     out.append(dict(name=f"{iface}/{app}/mounted/free{n + 1}", iface=iface, app=app, n=n, pre="/", mount="/m", weight=4 ** n))
             # directory configured as a relative path, working directory changed afterwards
+            # a handle_404 application configured (non-default): served files and the directory redirect must not depend on it
+            for n in range(0, 3 if thorough else 2):
+                out.append(dict(name=f"{iface}/{app}/handle-404/free{n + 1}", iface=iface, app=app, n=n, pre="/", handle_404=True, weight=4 ** n))
             for n in range(0, 3 if thorough else 2):
                 out.append(dict(name=f"{iface}/{app}/reldir/free{n + 1}", iface=iface, app=app, n=n, pre="/", dirmode="rel", weight=4 ** n))
             out.append(dict(name=f"{iface}/{app}/reldir/dotdot+2", iface=iface, app=app, n=2, pre="/../", dirmode="rel", weight=16))
